@@ -265,6 +265,18 @@ class HistoryRunner:
             self.manual(op[1], "replace")
         elif k == "mremove":
             self.manual(op[1], "remove")
+        elif k == "msymlink":
+            # the user replaces / creates the file as a SYMLINK to a regular file of their own
+            pth = op[1]
+            existed = pth in m.fs
+            was_redo = existed and m.fs[pth].owner == "redo"
+            disk.symlink(pth)
+            m.user_write(pth, P.Disk.LINK_DATA)
+            self.note_user(pth)
+            self.user_kind[pth] = "symlink" + ("-after-generated" if was_redo else "")
+            if was_redo or not existed:
+                self.role_changes[pth] += 1
+            self.pending_changes.add("mreplace" + ("-gen" if was_redo else ("-user" if existed else "-new")))
         else:
             raise ValueError(op)
         if k not in ("cmd", "query", "crash"):
